@@ -259,6 +259,45 @@ pub fn check_class(case: &Case, l: &mut Local) -> Verdict {
     Verdict::Pass { nontrivial: ops >= 2 && yes > 0 && no > 0 }
 }
 
+// ---- variant 1a: bounded-exhaustive legacy / u bracket contents: all sequences of up to 3 tokens
+
+fn bracket_slice() -> &'static Vec<Case> {
+    static S: OnceLock<Vec<Case>> = OnceLock::new();
+    S.get_or_init(|| {
+        const T: &[&str] = &["a", "b", "A", "-", "\\-", "\\d", "\\w", "\\W", "\\s", "^", "\\b", "\\B", "\\]", "[", "\\c", "\\1"];
+        let probes: Vec<&str> = vec!["a", "b", "A", "B", "-", "^", "0", "9", "_", " ", "\u{8}", "\\", "]", "[", "c", "1", "\u{1}", "k", "K", "\u{212A}", "\u{17F}", "s", "S", "", "ab"];
+        let mut bodies: Vec<String> = vec![String::new()];
+        let mut layer: Vec<String> = vec![String::new()];
+        for _ in 0..3 {
+            let mut next = vec![];
+            for b in &layer {
+                for t in T {
+                    next.push(format!("{}{}", b, t));
+                }
+            }
+            bodies.extend(next.iter().cloned());
+            layer = next;
+        }
+        let mut out = vec![];
+        for b in &bodies {
+            for neg in ["", "^"] {
+                for f in ["", "i", "u", "iu"] {
+                    let pat_s = format!("^[{}{}]$", neg, b);
+                    out.push(Case { pat: pat_s.chars().map(|c| c as u32).collect(), flags: f.to_string(), hay: String::new(), hay16: vec![], start: 0, x: json!({ "probes": probes }) });
+                }
+            }
+        }
+        out
+    })
+}
+
+fn gen_bracket_slice(src: &mut Src, _t: Tier) -> Case {
+    let v = bracket_slice();
+    v[(src.raw() as usize).min(v.len() - 1)].clone()
+}
+
+pub static V_BSLICE: Variant = Variant { name: "exhaustive_bracket_tokens", choice_len: 1, gen: gen_bracket_slice, check: check_class };
+
 // ---- variant 1b: bounded-exhaustive v-mode expressions of depth <= 2 over a small operand set
 
 fn slice_operands() -> Vec<CsOp> {
@@ -686,20 +725,21 @@ pub static V_LAWS: Variant = Variant { name: "set_laws", choice_len: 400, gen: g
 pub static V_SWEEP: Variant = Variant { name: "fixed_set_sweeps", choice_len: 1, gen: gen_sweep, check: check_sweep };
 
 pub fn variants() -> Vec<&'static Variant> {
-    vec![&V_CLASS, &V_RAW, &V_LAWS, &V_SWEEP, &V_VSLICE, &V_ISWEEP]
+    vec![&V_CLASS, &V_RAW, &V_LAWS, &V_SWEEP, &V_VSLICE, &V_ISWEEP, &V_BSLICE]
 }
 
 pub fn run(ctx: &Ctx) -> i32 {
     esref::selftest::ensure();
     ctx.run_list(&V_SWEEP, &sweep_cases());
     ctx.run_list(&V_VSLICE, v_slice());
+    ctx.run_list(&V_BSLICE, bracket_slice());
     ctx.run_list(&V_ISWEEP, &isweep_cases());
     ctx.run_variant(&V_CLASS, ctx.scale(150_000, 2_500_000));
     ctx.run_variant(&V_RAW, ctx.scale(150_000, 2_500_000));
     ctx.run_variant(&V_LAWS, ctx.scale(100_000, 1_500_000));
     ctx.finish(
         "exploration",
-        "(00) EVERY interval of 1..4 code points that starts or ends at a cased code point (one whose legacy or Unicode canonical form differs, or that is such a form), as [lo-hi] and [^lo-hi] under i, iu and iv, run over all cased code points and their +-4 neighbours and compared with the canonical-equivalence closure; (0) bounded-exhaustive: ALL v-mode expressions of depth <= 2 (union / && / -- of two operands, and of such an expression with an operand on either side) over 13 operands {a, b, A, a-b, \\d, \\w, \\W, \\q{ab}, \\q{a|bc}, \\q{}, \\q{ab|AB|b}, [aB], [^a]}, outer negation where the grammar allows it, flags v and iv, each probed with 21 fixed strings. (1) class expressions: legacy/u brackets (chars, ranges, class escapes, \\p) and v-mode expression trees to depth 3 (union / && / --, nested and negated nested classes, \\q{} with 0-3 strings of length 0-3, \\p), with and without i, outer negation, over themed alphabets incl. interval stress points (0, 7F/80, D7FF/E000, 10FFFF); /^E$/ is probed with every mentioned character, its neighbours, its case partners, 26 decoys from every plane, every \\q string with its prefixes / extensions / case variants, and the empty string; oracle = the reference model's set semantics (opt and no_opt pipelines). (2) the same for raw Annex B spellings ([a-\\d], [--a], [\\c1], [\\b], legacy octal...). (3) metamorphic set laws on generated v-mode operands (commutativity, A--B = A&&[^B], [[A]] = [A], double complement, De Morgan) judged on the probes with no oracle. (4) EXHAUSTIVE sweeps over all 1,112,064 scalar values of \\d \\D \\w \\W \\s \\S, the same inside [..] and [^..], '.', [^], unions, and \\b/\\B next to every character, for flags {-,u,v,s,m} against sets written out from the spec. Non-trivial = class with >= 2 operators/escapes having both a member and a non-member among the probes.",
+        "(00) EVERY interval of 1..4 code points that starts or ends at a cased code point (one whose legacy or Unicode canonical form differs, or that is such a form), as [lo-hi] and [^lo-hi] under i, iu and iv, run over all cased code points and their +-4 neighbours and compared with the canonical-equivalence closure; (0a) bounded-exhaustive: ALL bracket contents of up to 3 tokens from {a, b, A, -, \\-, \\d, \\w, \\W, \\s, ^, \\b, \\B, \\], [, \\c, \\1}, plain and negated, under -, i, u, iu (35k classes; validity and membership of 25 probes, Annex B range rules included); (0) bounded-exhaustive: ALL v-mode expressions of depth <= 2 (union / && / -- of two operands, and of such an expression with an operand on either side) over 13 operands {a, b, A, a-b, \\d, \\w, \\W, \\q{ab}, \\q{a|bc}, \\q{}, \\q{ab|AB|b}, [aB], [^a]}, outer negation where the grammar allows it, flags v and iv, each probed with 21 fixed strings. (1) class expressions: legacy/u brackets (chars, ranges, class escapes, \\p) and v-mode expression trees to depth 3 (union / && / --, nested and negated nested classes, \\q{} with 0-3 strings of length 0-3, \\p), with and without i, outer negation, over themed alphabets incl. interval stress points (0, 7F/80, D7FF/E000, 10FFFF); /^E$/ is probed with every mentioned character, its neighbours, its case partners, 26 decoys from every plane, every \\q string with its prefixes / extensions / case variants, and the empty string; oracle = the reference model's set semantics (opt and no_opt pipelines). (2) the same for raw Annex B spellings ([a-\\d], [--a], [\\c1], [\\b], legacy octal...). (3) metamorphic set laws on generated v-mode operands (commutativity, A--B = A&&[^B], [[A]] = [A], double complement, De Morgan) judged on the probes with no oracle. (4) EXHAUSTIVE sweeps over all 1,112,064 scalar values of \\d \\D \\w \\W \\s \\S, the same inside [..] and [^..], '.', [^], unions, and \\b/\\B next to every character, for flags {-,u,v,s,m} against sets written out from the spec. Non-trivial = class with >= 2 operators/escapes having both a member and a non-member among the probes.",
         &["esref's class evaluator and Unicode data (V8/ICU export, std) are the trusted base", "properties of strings are not evaluated by the reference (C11 covers them)"],
     )
 }
